@@ -97,6 +97,14 @@ const typedNilB = 99
 // pointer error of a type nobody registers (the registered types are 0..2), equal only to itself.
 const asShimTy = 7
 
+// sliceTy: ETypedV sliceTy n is built as a slice-based error value (like scanner.ErrorList or a validator's error list): its
+// dynamic type cannot be hashed or compared.  Nothing registers the type, and it is only ever an outcome, never a target.
+const sliceTy = 8
+
+type sliceErr []int64
+
+func (e sliceErr) Error() string { return fmt.Sprintf("slice-error%v", []int64(e)) }
+
 type asShimErr struct{ n int64 }
 
 func (e *asShimErr) Error() string   { return fmt.Sprintf("as-shim(%d)", e.n) }
@@ -152,6 +160,8 @@ func (d ErrD) build() error {
 		e = errors.New(fmt.Sprintf("sentinel %d", d.A))
 	case "TypedV":
 		switch d.A {
+		case sliceTy:
+			e = sliceErr{d.B}
 		case 0:
 			e = ValErr0{d.B}
 		case 1:
@@ -247,6 +257,11 @@ func describe(err error) (d ErrD) {
 		}
 	}()
 	switch v := err.(type) {
+	case sliceErr:
+		if len(v) == 1 {
+			return ErrD{K: "TypedV", A: sliceTy, B: v[0]}
+		}
+		return ErrD{K: "Other"}
 	case ValErr0:
 		return ErrD{K: "TypedV", A: 0, B: v.N}
 	case ValErr1:
